@@ -29,7 +29,7 @@ def main(tier, args):
     quick = tier == "quick"
     dl = int(os.environ.get("C12_DEADLINE_S", 55 if quick else 1000))      # relative deadline of every process (override: diagnosis on a loaded machine)
     jobs = []
-    # all processes start together (run_procs jobs=24), so the one (relative) deadline bounds the wall time; the fork-bound pipeline lanes come first.
+    # all processes start together (run_procs jobs=28), so the one (relative) deadline bounds the wall time; the fork-bound pipeline lanes come first.
     # (2) pipeline half, engine H, fork per evaluation.  <=requests per configuration: quick 3/3/3, thorough 4/3/4
     depth = 6 if quick else 8
     mr = {"unix-epoll": 3 if quick else 4, "unix-select": 3, "tcp-epoll": 3 if quick else 4}
@@ -39,7 +39,8 @@ def main(tier, args):
     jobs.append(("pipe:unix-epoll-keeponly", [pipe, "unix", "epoll", "6" if quick else "8", "4" if quick else "5", "keeponly"]))
     # lanes that each open one more dimension of the closed system (see main() of the harness); <=3 requests, depth 6 (thorough 7)
     ldepth = "6" if quick else "7"
-    for tr, eng, lane in (("unix", "epoll", "hdr"), ("unix", "epoll", "big"), ("unix", "epoll", "multi"), ("tcp", "epoll", "multi"), ("unix", "epoll", "mw")):
+    for tr, eng, lane in (("unix", "epoll", "hdr"), ("unix", "epoll", "big"), ("unix", "epoll", "multi"), ("tcp", "epoll", "multi"), ("unix", "epoll", "mw"),
+                          ("unix", "epoll", "resp"), ("unix", "epoll", "life"), ("tcp", "epoll", "life")):
         jobs.append(("pipe:%s-%s-%s" % (tr, eng, lane), [pipe, tr, eng, ldepth, "3", lane]))
     for tr, eng in (("unix", "epoll"), ("tcp", "epoll")):      # hostile Content-Length values against the real server (small: the lane reaches its fixpoint at depth 4)
         jobs.append(("pipe:%s-%s-hcl" % (tr, eng), [pipe, tr, eng, "4" if quick else "5", "3", "hcl"]))
@@ -55,22 +56,28 @@ def main(tier, args):
         jobs = [j for j in jobs if j[0] == args.only or j[0].split(":")[0] == args.only]
     os.makedirs(vf.BUILD + "/C12/sock", exist_ok=True)
     env = {"VERIF_DEADLINE_S": str(dl), "VERIF_WORKERS": "6", "C12_SOCK_DIR": vf.BUILD + "/C12/sock"}
-    vf.run_procs(res, jobs, env=env, log=log, jobs=24)
+    vf.run_procs(res, jobs, env=env, log=log, jobs=28)
     for f in glob.glob(vf.BUILD + "/C12/sock/c12-*.sock"):      # left behind by children that died (crash = reported violation)
         try: os.unlink(f)
         except OSError: pass
+    # sizes of the enumerated lists, asked from the harnesses themselves (so the text cannot drift from the code)
+    import subprocess
+    def counts(exe):
+        out = subprocess.run([exe, "counts"], capture_output=True, text=True).stdout
+        return dict(kv.split("=") for kv in out.split() if "=" in kv)
+    pc, lc = counts(parser), counts(pipe)
     rule = (
         "(I) real RequestParser fed like Server::Impl::onTcpReceived (consume the returned count, re-present the rest together with the next segment); every parse() call gets an "
         "exact-size heap copy of the bytes given (a read before/after them is an ASan report), and Request::toString() (the context-log text) is evaluated for every request delivered. "
         "(a) request grammar {GET,POST,DELETE} x 3 targets (one with a query, one with a fragment) x HTTP/1.0|1.1 x 5 header sets (0-2 headers, Content-Length always present, first or last) "
         "x body length 0/1/5 = 270 requests; 1-request streams: all 270, every split with <=%d cuts; 2-request streams (%s) and 3-request streams (covering subset^3): every split with <=2 cuts; "
-        "every uniform chunk size incl. byte-by-byte; plus 19 hand-written extras (HEAD/PUT/TRACE/OPTIONS, ;params and %%xx escapes in path/params/query/fragment, unpadded and padded header values, "
-        "Connection: keep-alive[, TE], bodies containing CRLFCRLF / a whole request / a bare CRLF, body lengths 10,12,99,100,255,256,300,1023,1024,4096,5000) alone, before and after a grammar request "
+        "every uniform chunk size incl. byte-by-byte; plus {NEXTRAS} hand-written extras (HEAD/PUT/TRACE/OPTIONS, ;params and %%xx escapes in path/params/query/fragment, unpadded and padded header values, "
+        "Connection: keep-alive[, TE], bodies containing CRLFCRLF / a whole request / a bare CRLF, body lengths 10,12,99,100,255,256,300,1023,1024,4096,5000, heads with 16 and 40 headers, an 1100-byte header value, a 2100-byte target) alone, before and after a grammar request "
         "and doubled: every 1-cut split (2-cut when short) + uniform chunks, and one 66000-byte body (cuts in head/middle/tail, chunks 64..4096); "
         "oracle = request sequence (method,target,version,headers,body) equal to the unsplit stream and to the generator/hand-written expectation, parse() return <= size given. "
-        "(b) every byte string of length <=%d over {G,E,T,P,SP,/,:,CR,LF,H,1,.,0,x} behind 7 valid prefixes (one segment, and prefix|bytes); 277 single-field mutations of a valid request "
+        "(b) every byte string of length <=%d over {G,E,T,P,SP,/,:,CR,LF,H,1,.,0,x} behind 7 valid prefixes (one segment, and prefix|bytes); {NMUT} single-field mutations of a valid request "
         "(incl. hostile Content-Length values: every negative length -1..-(head size+4), signs/zeros/blanks, both signs around 2^31, 2^32, 2^63, 2^64) "
-        "x 3 contexts x every 1-cut split (2-cut if <=%d bytes) + uniform chunks: no exception escapes, ASan/UBSan clean, feed loop and parse() terminate (step bound: a request delivered while "
+        "x 3 contexts x every 1-cut split (inputs up to 6000 bytes, i.e. all of them; 2-cut if <=%d bytes) + uniform chunks 1/2/3/7/1024: no exception escapes, ASan/UBSan clean, feed loop and parse() terminate (step bound: a request delivered while "
         "nothing was consumed = the server's receive loop never ends; a request that consumed less than its own body + blank line is reported too); for every Content-Length value mutation "
         "(except -1 = the parser's 'no length' mark) the outcome (requests, reject/wait) is the same for every split; and whenever the unsplit mutated stream "
         "parses completely into requests whose Content-Length equals the body delivered, every one of those splits must give the same request sequence. "
@@ -78,23 +85,30 @@ def main(tier, args):
         "BFS (canonical state = per-connection bookkeeping, parser state, buffers, write event, pending handlers and deferred next() calls, per-client model) over histories of depth <=%d with <=%d/%d/%d requests of: "
         "request(keep-alive | Connection: close | HTTP/1.0; handler completes in the callback or 1|2 loop passes later; sent alone | glued to the next request in one segment | "
         "cut in two segments | cut inside the method token), malformed request (non-numeric Content-Length | unknown method; crash/hang freedom only), loop pass. "
-        "Lanes on top (unix/epoll, <=3 requests, depth %s): keeponly (<=%s plain keep-alive requests, handler delays 0-3 passes: every completion order of 4 requests incl. fully reversed); hdr (HTTP/1.1 + Connection: keep-alive, HTTP/1.0 + keep-alive, HTTP/1.0 + 'keep-alive, TE' "
+        "Lanes on top (unix/epoll, <=3 requests, depth %s): keeponly (<=%s plain keep-alive requests, handler delays 0-3 passes: every completion order of 4 requests incl. fully reversed; "
+        "plus 'rel' requests whose handler first completes every outstanding context from inside its own callback, i.e. commitRespond nested in onTcpReceived); hdr (HTTP/1.1 + Connection: keep-alive, HTTP/1.0 + keep-alive, HTTP/1.0 + 'keep-alive, TE' "
         "must not close; HTTP/1.1 + 'TE, close' and 'close' close); big (12 KB responses against a minimal server-side SO_SNDBUF: several partial writes per response, small responses queued behind them, "
-        "closing response big or small; context log on); multi (two connections at once with interleaved requests and delays, the client closing a connection with or without responses outstanding and "
-        "reconnecting into the freed slot, <=2 reconnects; also on loopback TCP; per-connection oracle incl. 'response written to another connection'; context log on); mw (two callbacks: the first "
-        "defers next() by 0|1|2 passes, the second - registered through use(Middleware*) - answers in its callback or 1 pass later; context log on); hcl (unix and tcp: after 0-2 valid requests one request "
-        "with one of 29 hostile Content-Length values - negative incl. exactly -(size of its own head) and +-1/+5 around it, signed, zero-padded, blank, empty, around 2^31/2^32/2^63/2^64 - in one segment or "
+        "closing response big or small; the client may close and reconnect while the send buffer still holds a response; pending big and small responses are distinct states; context log on); multi (two connections at once with interleaved requests and delays, the client closing a connection with or without responses outstanding and "
+        "reconnecting into the freed slot, <=2 reconnects; 'xclose' = request and close in one step, so the server answers a peer that is already gone (EPIPE/ECONNRESET write path); 'rel' = a handler "
+        "completing the contexts of both connections from inside its callback; also on loopback TCP; per-connection oracle incl. 'response written to another connection'; context log on); mw (two callbacks: the first "
+        "defers next() by 0|1|2 passes, the second - registered through use(Middleware*) - answers in its callback or 1 pass later; context log on); resp (response variants: Content-Type + X-Tag headers | X-Tag and an empty body | response left untouched = 404 without body or tag; delays 0|1; alone|glued); "
+        "life (unix and tcp: stop()+start() and cleanup()+initialize()+use()+start() with connections open and handlers outstanding - <=2 restarts, every client reconnects, old contexts complete "
+        "afterwards - and a terminal cleanup() with live connections whose contexts are released only after it); hcl (unix and tcp: after 0-2 valid requests one request "
+        "with one of {NHCL} hostile Content-Length values - negative incl. exactly -(size of its own head) and +-1/+5 around it, signed, zero-padded, blank, empty, around 2^31/2^32/2^63/2^64 - in one segment or "
         "cut in two, then optionally a valid request: judged by crash/hang freedom and the stream rules; watchdog = a loop pass that enters the handler >40 times is reported with its history, a busy pass "
         "without handler calls by the 15 s CPU-time watchdog). "
         "Oracle after settling (passes until nothing moves), per connection: every request handed to the handler is the one sent, handed once and in order; exactly one response per delivered request in "
-        "request order, byte-identical to the handler's (tagged bodies); nothing after the response to the closing request; EOF after it; every request up to the closing one reaches the handler; "
-        "a connection closed by the client is judged for crash/hang freedom and the stream rules up to the close only"
+        "request order, the whole response (status line, every header, blank line, body) equal to a string the model builds without Respond::toString(), matched by position; Content-Length must be plain decimal; nothing after the response to the closing request; EOF after it; every request up to the closing one reaches the handler; "
+        "a connection closed by the client or ended by stop()/cleanup() is judged for crash/hang freedom and the stream rules up to its end only; a hostile-length request whose value the model reads as plain decimal 5 "
+        "(05, blanks around 5) is an ordinary request and fully judged"
         % (2 if quick else 3, "covering subset^2" if quick else "all x covering subset, both orders", 5 if quick else 6, 80 if quick else 400,
            depth, mr["unix-epoll"], mr["unix-select"], mr["tcp-epoll"], ldepth, "4" if quick else "5"))
+    rule = rule.replace("{NMUT}", pc.get("nmut", "?")).replace("{NEXTRAS}", pc.get("nextras", "?")).replace("{NHCL}", lc.get("nhcl", "?"))
     vf.finish(PID, tier, res, t0, rule=rule,
-              assumptions=["every request of a segmentation-independence stream declares Content-Length; canonical header spelling and lower-case Connection tokens (DESIGN 1.7)",
+              assumptions=["every request of a segmentation-independence stream declares Content-Length; canonical header-name spelling (DESIGN 1.7); lower-case Connection tokens (this check's own reading: capitalised Keep-Alive/Close are not exercised)",
+                           "the process runs in the classic \"C\" locale (a digit-grouping global C++ locale is behind the default-off switch C12_GROUPING_LOCALE, see the harness)",
                            "the client writes a segment, then the loop runs one pass; segments written without a pass in between coalesce into one receive",
                            "handlers complete (and deferred next() calls are made) on the loop thread: from a runNext callback of the pass in which they are due",
                            "an idle loop pass is ended by an interposed epoll_wait/select (zero timeout) instead of blocking",
-                           "the client reads everything available after every pass; it never half-closes; it closes its side only in the multi lane (then it reconnects at once)",
+                           "the client reads everything available after every pass; it never half-closes; it closes its side only in the multi and big lanes (then it reconnects at once)",
                            "partial socket writes are produced by a small server-side SO_SNDBUF on a unix-domain socket (big lane) - how many bytes one write takes is the kernel's choice"])
